@@ -11,6 +11,7 @@
 import ALV.Lemmas.C13Shape
 import ALV.Lemmas.C13Poles1
 import ALV.Lemmas.C13Res
+import ALV.Lemmas.C13ResRegion
 import ALV.Lemmas.C13Gamma
 import ALV.Lemmas.C13Euler
 import ALV.Lemmas.C13Comb
@@ -363,6 +364,53 @@ theorem resonator_z_exp_no_repair (f R ct : ℝ) (hR0 : 0 < R) (hR1 : R < 1) (hc
   unfold resDenSq
   rw [div_lt_one (by nlinarith [sq_nonneg ((1 + R ^ 2) * Real.cos f - 2 * R * ct)])]
   nlinarith [mul_pos hpos hpos]
+
+/-- **C13.5h** (the finding, both signs of `cos f`, in terms of `freq` and `bandwidth`) whenever
+`|cos f| > 1/cosh(bw/2)` — centre frequencies close to 0 OR to π, the closer the narrower the band —
+`resonator.z_exp` has a REAL pole of modulus strictly larger than the documented `e^{-bw/2}`
+(`(1+R²)/(2R) = cosh(bw/2)` for `R = e^{-bw/2}`). -/
+theorem resonator_z_exp_wrong_radius (f bw : ℝ) (h : 1 / Real.cosh (bw / 2) < |Real.cos f|) :
+    ∃ x : ℝ, IsPole (resonator .zExp f bw) (x : ℂ) ∧ Real.exp (-(bw / 2)) < ‖(x : ℂ)‖ := by
+  have hR0 := Real.exp_pos (-(bw / 2))
+  have hc : 2 * Real.exp (-(bw / 2)) < |Real.cos f| * (1 + Real.exp (-(bw / 2)) ^ 2) := by
+    by_contra hcon
+    push Not at hcon
+    exact absurd ((zexp_region_iff f bw).1 hcon) (not_le.2 h)
+  obtain ⟨x, hp, hx⟩ := res_zexp_wrong_radius [(1 - Real.exp (-(bw / 2)) ^ 2) * (1 / 2), 0,
+    -((1 - Real.exp (-(bw / 2)) ^ 2) * (1 / 2))] f _ hR0 hc
+  refine ⟨x, ?_, ?_⟩
+  · simp only [resonator, resonatorZExp_eq]; exact hp
+  · rw [Complex.norm_real, Real.norm_eq_abs]; exact hx
+
+/-- **C13.5i** the EXACT region where `resonator.z_exp` has its documented pole radius, for every
+centre frequency and bandwidth (no range restriction): all poles have modulus `e^{-bw/2}` if and
+only if `|cos f| ≤ 1/cosh(bw/2)`. -/
+theorem resonator_z_exp_radius_region (f bw : ℝ) :
+    (∀ p : ℂ, IsPole (resonator .zExp f bw) p → ‖p‖ = Real.exp (-(bw / 2)))
+      ↔ |Real.cos f| ≤ 1 / Real.cosh (bw / 2) := by
+  have hR0 := Real.exp_pos (-(bw / 2))
+  constructor
+  · intro hall
+    by_contra hcon
+    push Not at hcon
+    obtain ⟨x, hp, hx⟩ := resonator_z_exp_wrong_radius f bw hcon
+    rw [hall _ hp] at hx
+    exact lt_irrefl _ hx
+  · intro hc p hp
+    simp only [resonator, resonatorZExp_eq] at hp
+    exact res_pole_radius _ _ _ hR0
+      ((ctZ_sq_le_one_iff f _ hR0).2 ((zexp_region_iff f bw).2 hc)) p hp
+
+/-- **C13.5j** the same region as an interval of centre frequencies: for `f ∈ [0, π]` the documented
+radius holds exactly for `arccos(1/cosh(bw/2)) ≤ f ≤ π - arccos(1/cosh(bw/2))`
+(e.g. `bw = 1`: `0.481 ≤ f ≤ 2.661`; `bw = 0.1`: `0.04998 ≤ f ≤ 3.0916`). -/
+theorem resonator_z_exp_radius_interval (f bw : ℝ) (h0 : 0 ≤ f) (h1 : f ≤ Real.pi) :
+    (∀ p : ℂ, IsPole (resonator .zExp f bw) p → ‖p‖ = Real.exp (-(bw / 2)))
+      ↔ Real.arccos (1 / Real.cosh (bw / 2)) ≤ f ∧ f ≤ Real.pi - Real.arccos (1 / Real.cosh (bw / 2)) := by
+  rw [resonator_z_exp_radius_region]
+  have hc := one_le_cosh' (bw / 2)
+  exact abs_cos_le_iff f _ h0 h1 (by positivity)
+    (by rw [div_le_one (by linarith)]; exact hc)
 
 /-! ### 6. comb filters -/
 
@@ -1004,6 +1052,20 @@ example (bw : ℝ) : 2 * Real.exp (-(bw / 2)) * Real.cos (Real.pi / 2)
 -- 5e: the `z_exp` hypothesis holds e.g. at f = π/2 for every bandwidth
 example (bw : ℝ) : |Real.cos (Real.pi / 2)| * (1 + Real.exp (-(bw / 2)) ^ 2) ≤ 2 * Real.exp (-(bw / 2)) := by
   simp; exact (Real.exp_pos _).le
+-- 5h: outside the region (f = 1/10, bw = 1) ...
+example : 1 / Real.cosh ((1 : ℝ) / 2) < |Real.cos (1 / 10)| := by
+  have hc : 1 - (1 / 10 : ℝ) ^ 2 / 2 ≤ Real.cos (1 / 10) := Real.one_sub_sq_div_two_le_cos
+  have h1 : (17 / 16 : ℝ) ≤ Real.cosh (1 / 2) := by
+    have ha := Real.add_one_le_exp ((1 : ℝ) / 2)
+    have hb := Real.add_one_le_exp (-((1 : ℝ) / 2))
+    have hq := Real.quadratic_le_exp_of_nonneg (by norm_num : (0 : ℝ) ≤ 1 / 2)
+    rw [Real.cosh_eq]
+    linarith
+  rw [abs_of_pos (by linarith), div_lt_iff₀ (by linarith)]
+  nlinarith
+-- 5i / 5j: ... and inside it (f = π/2, every bandwidth)
+example (bw : ℝ) : |Real.cos (Real.pi / 2)| ≤ 1 / Real.cosh (bw / 2) := by
+  rw [Real.cos_pi_div_two, abs_zero]; exact (one_div_pos.2 (Real.cosh_pos _)).le
 -- 5f: the real-pole regime is inside the property's parameter range: f = 1/10, bw = 1
 example : 2 * Real.exp (-((1 : ℝ) / 2)) < Real.cos (1 / 10) * (1 + Real.exp (-((1 : ℝ) / 2)) ^ 2) := by
   have hc : 1 - (1 / 10 : ℝ) ^ 2 / 2 ≤ Real.cos (1 / 10) := Real.one_sub_sq_div_two_le_cos
